@@ -210,7 +210,45 @@ out:
     pv_ledger_forget_all();
 }
 
+
+/* ---------------------------------------------------------------- (c) the application's own state
+ * Callbacks and the plain file-scope variables they read live in this translation unit, which calls the API by name; the variables
+ * are set right before the call and restored afterwards.  That only works if the compiler of the *caller* knows that the API
+ * calls back into this file (a `leaf`, `const` or `pure` attribute in the header would tell it otherwise) */
+static uint64_t s_now = 7;
+static uint8_t s_fill = 0x11;
+static unsigned s_rand_calls;
+static uint64_t own_time(void) { return s_now; }
+static void own_rand(void* p, size_t n) { uint8_t* b = p; for (size_t i = 0; i < n; ++i) b[i] = (uint8_t)(s_fill + 3 * i); ++s_rand_calls; }
+static int create_with(uint64_t t, uint8_t fill, polyseed_data** out) {
+    uint64_t saved_t = s_now; uint8_t saved_f = s_fill; unsigned calls = s_rand_calls;
+    s_now = t; s_fill = fill;
+    polyseed_status st = polyseed_create(0, out);
+    s_now = saved_t; s_fill = saved_f;
+    return st == POLYSEED_OK ? (int)(s_rand_calls - calls) : -1 - (int)st;
+}
+static uint64_t n_own(void) { return pv_scaled(4000, 200000); }
+static void run_own(uint64_t idx, pv_rng* rng) {
+    polyseed_dependency t; pv_world_table(&t, (int)(idx & 1), true, true, true); t.time = own_time; t.randbytes = own_rand;
+    pv_api_inject(&t);
+    uint64_t tt = PV_EPOCH + pv_rand64(rng) % (1024 * PV_STEP); uint8_t fill = (uint8_t)pv_rand64(rng);
+    polyseed_data* sd = NULL;
+    pv_world_begin("polyseed_create"); int r = create_with(tt, fill, &sd); pv_world_end();
+    PV_COUNT("evaluations", 1);
+    if (r < 0) { pv_violation("C18/create-failed", "[own state] -> %s", pv_status_name(-1 - r)); pv_ledger_forget_all(); return; }
+    bool ok = true;
+    if (r != 1) { ok = false; pv_violation("C18/own-state/random-source-calls", "the application's random source, a function in the calling translation unit, was seen to be called %d times by that translation unit", r); }
+    uint64_t B = polyseed_get_birthday(sd);
+    if (B != pv_m_birthday_time(pv_m_birthday_of(tt))) { ok = false; pv_violation("C18/birthday-not-from-injected-clock", "[clock value kept in a file-scope variable of the caller, set right before polyseed_create] clock %llu, birthday %llu", (unsigned long long)tt, (unsigned long long)B); }
+    pv_api_store(sd, g_img);
+    uint8_t want[19]; for (int i = 0; i < 19; ++i) want[i] = (uint8_t)(fill + 3 * i); want[18] &= 0x3f;
+    if (memcmp(g_img + 10, want, 19)) { ok = false; pv_violation("C18/secret-not-from-randbytes", "[random bytes derived from a file-scope variable of the caller] secret %s, delivered %s", pv_hex(g_img + 10, 19), pv_hex(want, 19)); }
+    pv_api_free(sd);
+    if (ok) { PV_COUNT("own.creates_ok", 1); PV_DISTINCT("nontrivial", pv_mix(tt, fill)); }
+    pv_ledger_forget_all();
+}
+
 int main(int argc, char** argv) {
-    static const pv_section secs[] = { { "rand", n_rand, run_rand }, { "inject", n_inject, run_inject } };
-    return pv_main(argc, argv, "C18", secs, 2, init, NULL);
+    static const pv_section secs[] = { { "rand", n_rand, run_rand }, { "inject", n_inject, run_inject }, { "own", n_own, run_own } };
+    return pv_main(argc, argv, "C18", secs, 3, init, NULL);
 }
